@@ -24,7 +24,11 @@ fragment, fragments themselves) is *hidden state*: the statement does not constr
 tracks it with plasTeX's rule (pointers are assigned on insertion and never cleared) only so that
 the deviated predictions below are complete.
 
-Named deviations (bit flags): each replaces one strict rule by what plasTeX is known to do.
+  * an element may use its 'self' attribute fragment as its child list (plasTeX's layout for \\textbf{..}): the
+    element and the fragment then share ONE list; the element lists the children, so they name the element as parent,
+    and a lookup by tag name meets each of them once.
+Named deviations (bit flags): each replaces one strict rule by what plasTeX is known to do (switches 1-16 and 64
+describe the tree before the repairs bd20ab5..e7fb523; they are kept so that a regression is named, and must not fire).
 """
 
 D, E, T, F = 'D', 'E', 'T', 'F'
@@ -34,12 +38,18 @@ SETITEM_NEGATIVE_INDEX = 1          # n[i] = x, i < 0 in range: executed as inse
 SETITEM_OUT_OF_RANGE = 2            # n[i] = x, i out of range: same literal algorithm (x stays inserted / nothing raised)
 SETITEM_SLICE_RAISES = 4            # n[i:j] = [...] raises (AttributeError for a list value, TypeError for a fragment)
 INSERT_NEGATIVE_FRAGMENT = 8        # insert(i < 0, fragment): children inserted one by one at i, i+1, ... (i+1 may reach 0)
-CLONE_SHARES_ATTRIBUTES = 16        # cloneNode: the clone's attribute map holds the *same* fragment objects
-SHALLOW_CLONE_SHARES_CHILDREN = 32  # cloneNode(False): the clone lists the same child objects and re-parents them to itself
+CLONE_SHARES_ATTRIBUTES = 16        # cloneNode(True): the clone's attribute map holds the *same* fragment objects
+SHALLOW_CLONE_SHARES_CHILDREN = 32  # cloneNode(False): the clone lists the same child objects (re-parenting them to itself) and
+                                    # its attribute map holds the same fragment objects
 COMPARE_TOPMOST_ANCESTOR = 64       # compareDocumentPosition orders by the top-most common ancestor, not the deepest
 DETACHED_KEEPS_PARENT = 128         # a node no element lists still carries a parentNode (not cleared on removal, copied
                                     # by cloneNode, set on inserted fragments): parent-chain walks leave the tree / cycle
 
+SELF_FRAGMENT_PARENT = 512          # an element whose child list is its 'self' attribute fragment: whenever the attribute is
+                                    # (re)assigned (cloneNode, parsing) the children name the FRAGMENT as parentNode, not the
+                                    # element that lists them (NamedNodeMap._resetPosition); nodes appended later name the element
+SELF_LOOKUP_TWICE = 1024            # getElementsByTagName on such an element searches the 'self' fragment as an attribute AND
+                                    # as the child list: every match below it is returned twice
 FRAGMENT_REPARENTS_LISTED = 256     # putting a node into a fragment's child list (append/insert/normalize on the fragment)
                                     # overwrites its parentNode with the fragment's own pointer even when an
                                     # element/document lists the node
@@ -54,10 +64,13 @@ DEV_NAMES = {
     COMPARE_TOPMOST_ANCESTOR: 'C06.COMPARE_POSITION_TOPMOST_ANCESTOR',
     DETACHED_KEEPS_PARENT: 'C06.DETACHED_NODE_KEEPS_PARENT',
     FRAGMENT_REPARENTS_LISTED: 'C06.FRAGMENT_REPARENTS_LISTED_CHILD',
+    SELF_FRAGMENT_PARENT: 'C06.SELF_FRAGMENT_CHILD_PARENT',
+    SELF_LOOKUP_TWICE: 'C06.SELF_ATTRIBUTE_LOOKUP_TWICE',
 }
-VIEW = [COMPARE_TOPMOST_ANCESTOR, DETACHED_KEEPS_PARENT]
+VIEW = [COMPARE_TOPMOST_ANCESTOR, DETACHED_KEEPS_PARENT, SELF_LOOKUP_TWICE]
 STRUCTURAL = [SETITEM_NEGATIVE_INDEX, SETITEM_OUT_OF_RANGE, SETITEM_SLICE_RAISES, INSERT_NEGATIVE_FRAGMENT,
-              CLONE_SHARES_ATTRIBUTES, SHALLOW_CLONE_SHARES_CHILDREN, FRAGMENT_REPARENTS_LISTED]
+              CLONE_SHARES_ATTRIBUTES, SHALLOW_CLONE_SHARES_CHILDREN, FRAGMENT_REPARENTS_LISTED,
+              SELF_FRAGMENT_PARENT]
 
 POS_DISCONNECTED, POS_PRECEDING, POS_FOLLOWING, POS_CONTAINS, POS_CONTAINED_BY = 1, 2, 4, 8, 16
 
@@ -75,7 +88,8 @@ class Tree(object):
         o = Tree(self.dev if dev is None else dev)
         o.kind = list(self.kind)
         o.name = list(self.name)
-        o.kids = [None if k is None else list(k) for k in self.kids]
+        memo = {}                       # an element with a 'self' attribute shares ONE list with that fragment
+        o.kids = [None if k is None else memo.setdefault(id(k), list(k)) for k in self.kids]
         o.attrs = [None if a is None else dict(a) for a in self.attrs]
         o.par = list(self.par)
         return o
@@ -234,10 +248,22 @@ class Tree(object):
         return t
 
     def op_setattr(self, t, x, i):         # t.setAttribute('arg', fragment)
-        self.attrs[t]['arg'] = x
-        for c in self.kids[x]:
-            self.par[c] = x
+        self._setattr(t, 'arg', x)
         return NA
+
+    def op_setself(self, t, x, i):         # t.setAttribute('self', fragment) on an element whose child list was never touched:
+        self._setattr(t, 'self', x)        # the fragment IS the child list from now on
+        return NA
+
+    def _setattr(self, t, key, f):
+        self.attrs[t][key] = f
+        if key == 'self':
+            self.kids[t] = self.kids[f]    # one shared list
+        for c in self.kids[f]:
+            if key == 'self' and not (self.dev & SELF_FRAGMENT_PARENT):
+                self.par[c] = t            # the element lists them
+            else:
+                self.par[c] = f            # NamedNodeMap._resetPosition: children of a fragment value name the fragment
 
     def op_clone(self, t, x, deep):
         n0 = len(self.kind)
@@ -270,7 +296,9 @@ class Tree(object):
         keep = list(range(n0)) + new
         self.kind = [self.kind[n] for n in keep]
         self.name = [self.name[n] for n in keep]
-        self.kids = [None if self.kids[n] is None else [f(c) for c in self.kids[n]] for n in keep]
+        memo = {}
+        self.kids = [None if self.kids[n] is None else memo.setdefault(id(self.kids[n]), [f(c) for c in self.kids[n]])
+                     for n in keep]
         self.attrs = [None if self.attrs[n] is None else {k: f(v) for k, v in self.attrs[n].items()} for n in keep]
         self.par = [f(self.par[n]) for n in keep]
         return f(root)
@@ -280,13 +308,25 @@ class Tree(object):
         self.par[c] = self.par[n]
         if self.kind[n] == T:
             return c
+        share = (self.dev & CLONE_SHARES_ATTRIBUTES) if deep else (self.dev & SHALLOW_CLONE_SHARES_CHILDREN)
+        selff = None
         if self.attrs[n]:
-            for key, f in self.attrs[n].items():
-                if not (self.dev & CLONE_SHARES_ATTRIBUTES):
-                    f = self._clone(f, True)
-                self.attrs[c][key] = f
-                for k in self.kids[f]:
-                    self.par[k] = f
+            keys = [k for k in self.attrs[n] if k != 'self']
+            if 'self' in self.attrs[n]:
+                selff = self.attrs[n]['self']
+                keys.append('self')                      # the child-list attribute is copied last
+            for key in keys:
+                f = self.attrs[n][key]
+                if not share:
+                    if key == 'self' and not deep:
+                        g = self.new(F)                  # a shallow copy is childless
+                        self.par[g] = self.par[f]
+                        f = g
+                    else:
+                        f = self._clone(f, True)
+                self._setattr(c, key, f)
+        if selff is not None:
+            return c                                      # the children are the 'self' fragment
         if deep:
             for k in list(self.kids[n]):
                 self._append(c, self._clone(k, True))
@@ -379,19 +419,20 @@ class Tree(object):
             self.descendants(c, out)
         return out
 
-    def bytag(self, n, tag, out=None):
+    def bytag(self, n, tag, out=None, twice=False):
         """elements named `tag` below n in document order; attribute-held fragments are searched before the children"""
         if out is None:
             out = []
         if self.kind[n] == T:
             return out
         if self.attrs[n]:
-            for f in self.attrs[n].values():
-                self.bytag(f, tag, out)
+            for key, f in self.attrs[n].items():
+                if key != 'self' or twice:           # the 'self' fragment is the child list: searched once, below
+                    self.bytag(f, tag, out, twice)
         for c in self.kids[n]:
             if self.kind[c] == E and self.name[c] == tag:
                 out.append(c)
-            self.bytag(c, tag, out)
+            self.bytag(c, tag, out, twice)
         return out
 
     def siblings(self, c, tp):
@@ -418,16 +459,18 @@ class Tree(object):
             n = ptr[n]
         return out
 
-    def compare(self, a, b, ptr, topmost=False):
+    def compare(self, a, b, ptr, algo='tree'):
         """a.compareDocumentPosition(b) for two different nodes (plasTeX's single-flag convention), computed from the
         child lists and the parent pointers `ptr`; 'cycle' when a parent chain never ends.
-        topmost=False: order decided below the deepest common ancestor (the DOM definition).
-        topmost=True : the published algorithm -- adjacent-sibling shortcuts, then the FIRST common ancestor found
-                       walking down from the roots."""
+        algo 'tree'   : the DOM definition -- containment, else the order of the two branches below the deepest
+                        common ancestor (the strict oracle, used with the pointers the lists define);
+        algo 'deepest': the published algorithm, literally: adjacent-sibling shortcuts through ptr, containment along
+                        ptr, then common ancestors tried from the deepest one of a's chain upwards;
+        algo 'topmost': the algorithm published before the repair: common ancestors tried from the root downwards."""
         ca, cb = self._chain(a, ptr), self._chain(b, ptr)
         if ca is None or cb is None:
             return 'cycle'
-        if topmost:
+        if algo != 'tree':
             if self._ptr_sibling(a, ptr, False) == b:
                 return POS_PRECEDING
             if self._ptr_sibling(a, ptr, True) == b:
@@ -436,13 +479,14 @@ class Tree(object):
             return POS_CONTAINS          # b contains a
         if a in cb:
             return POS_CONTAINED_BY
-        if topmost:
+        if algo != 'tree':
             sp, op = ca[::-1], cb[::-1]
-            for i, s0 in enumerate(sp):
+            order = range(len(sp)) if algo == 'topmost' else range(len(sp) - 1, -1, -1)
+            for i in order:
                 for j, o0 in enumerate(op):
-                    if s0 == o0:
+                    if sp[i] == o0:
                         s, o = sp[i + 1], op[j + 1]
-                        for item in (self.kids[s0] or ()):
+                        for item in (self.kids[o0] or ()):
                             if item == s:
                                 return POS_FOLLOWING
                             if item == o:
